@@ -44,6 +44,7 @@ type c14Res struct {
 	Truncated   int         `json:"truncated"`
 	Hops        map[int]int `json:"hops"`
 	Opens       int         `json:"opens"`
+	MergeForms  int         `json:"merge_forms"` // public-path runs whose persisted segment holds unresolved merge operands
 	Viols       []Violation `json:"viols,omitempty"`
 	Sample      string      `json:"sample,omitempty"`
 	Infra       string      `json:"infra,omitempty"`
@@ -122,101 +123,121 @@ func c14Run(j c14Job) (res c14Res) {
 		} else if mask%2 != 1 {
 			continue // quick: public path for every 2nd key set
 		}
-		b := &BatchSpec{}
-		for _, k := range keys {
-			b.Ops = append(b.Ops, Op{Kind: 'S', Key: k, Val: "v" + k})
+		// two forms: plain sets; and (every other key set) merge operands on every second key, which a plain
+		// persistence round writes to the file unresolved - a persisted segment whose entries are not all sets
+		forms := []string{"sets"}
+		if len(keys) >= 2 && (j.Tier == "thorough" || mask%4 == 1) {
+			forms = append(forms, "merges")
 		}
-		w := NewWorld(Config{Backing: "store", MinMergePct: 100, KeysIndexMax: -1}, []*BatchSpec{b})
-		for _, st := range []string{"B0", "M", "Pb", "Pe"} {
-			if !w.Step(st) || w.infra != "" {
-				res.Infra = "build " + st + ": " + w.infra
+		for _, form := range forms {
+			b := &BatchSpec{}
+			isMerge := map[string]bool{}
+			for i, k := range keys {
+				if form == "merges" && i%2 == 1 {
+					b.Ops = append(b.Ops, Op{Kind: 'M', Key: k, Val: "v" + k})
+					isMerge[k] = true
+				} else {
+					b.Ops = append(b.Ops, Op{Kind: 'S', Key: k, Val: "v" + k})
+				}
+			}
+			w := NewWorld(Config{Backing: "store", MinMergePct: 100, KeysIndexMax: -1, MergeOp: form == "merges"}, []*BatchSpec{b})
+			for _, st := range []string{"B0", "M", "Pb", "Pe"} {
+				if !w.Step(st) || w.infra != "" {
+					res.Infra = "build " + st + ": " + w.infra
+					w.Teardown()
+					return
+				}
+			}
+			w.closeAll()
+			if w.infra != "" {
+				res.Infra = w.infra
 				w.Teardown()
 				return
 			}
-		}
-		w.closeAll()
-		if w.infra != "" {
-			res.Infra = w.infra
-			w.Teardown()
-			return
-		}
-		read := func(quota int) (map[string]string, string) {
-			so, _ := w.storeOptions()
-			so.SegmentKeysIndexMaxBytes = quota
-			so.SegmentKeysIndexMinKeyBytes = 1
-			so.CollectionOptions.ReadOnly = false
-			st, err := moss.OpenStore(w.dir, so)
-			if err != nil {
-				return nil, "OpenStore: " + err.Error()
-			}
-			res.Opens++
-			defer st.Close()
-			ss, err := st.Snapshot()
-			if err != nil || ss == nil {
-				return nil, "Snapshot failed"
-			}
-			defer ss.Close()
-			out := map[string]string{}
-			for _, p := range probes {
-				v, err := ss.Get([]byte(p), moss.ReadOptions{})
-				out["get:"+p] = fmtVal(v) + errS(err)
-			}
-			rng := probes
-			if j.Tier != "thorough" {
-				rng = []string{"", "a", "ab", "abc\x00", "b", "bb", "c", "d\x00"}
-			}
-			for _, s := range append([]string{nilMark}, rng...) {
-				for _, e := range append([]string{nilMark}, rng...) {
-					it, err := ss.StartIterator(boundOf(s), boundOf(e), moss.IteratorOptions{})
-					if err != nil || it == nil {
-						out["range:"+s+"|"+e] = "ERR"
-						continue
-					}
-					kv, errs := iterAll(it)
-					it.Close()
-					out["range:"+s+"|"+e] = fmt.Sprint(kv, errs)
+			read := func(quota int) (map[string]string, string) {
+				so, _ := w.storeOptions()
+				so.SegmentKeysIndexMaxBytes = quota
+				so.SegmentKeysIndexMinKeyBytes = 1
+				so.CollectionOptions.ReadOnly = false
+				st, err := moss.OpenStore(w.dir, so)
+				if err != nil {
+					return nil, "OpenStore: " + err.Error()
 				}
+				res.Opens++
+				defer st.Close()
+				ss, err := st.Snapshot()
+				if err != nil || ss == nil {
+					return nil, "Snapshot failed"
+				}
+				defer ss.Close()
+				out := map[string]string{}
+				for _, p := range probes {
+					v, err := ss.Get([]byte(p), moss.ReadOptions{})
+					out["get:"+p] = fmtVal(v) + errS(err)
+				}
+				rng := probes
+				if j.Tier != "thorough" {
+					rng = []string{"", "a", "ab", "abc\x00", "b", "bb", "c", "d\x00"}
+				}
+				for _, s := range append([]string{nilMark}, rng...) {
+					for _, e := range append([]string{nilMark}, rng...) {
+						it, err := ss.StartIterator(boundOf(s), boundOf(e), moss.IteratorOptions{})
+						if err != nil || it == nil {
+							out["range:"+s+"|"+e] = "ERR"
+							continue
+						}
+						kv, errs := iterAll(it)
+						it.Close()
+						out["range:"+s+"|"+e] = fmt.Sprint(kv, errs)
+					}
+				}
+				return out, ""
 			}
-			return out, ""
-		}
-		base, e := read(-1)
-		if e != "" {
-			res.Infra = e
-			w.Teardown()
-			return
-		}
-		// absolute check of the no-index open against the model
-		for _, p := range probes {
-			want := "nil"
-			if i := sort.SearchStrings(keys, p); i < len(keys) && keys[i] == p {
-				want = fmtVal([]byte("v" + p))
-			}
-			if base["get:"+p] != want {
-				res.Viols = append(res.Viols, Violation{Prop: "C14", Sig: "lookup-wrong-without-index|public|any", Msg: fmt.Sprintf("keys %q, no index: Get(%q)=%s want %s", keys, p, base["get:"+p], want)})
-			}
-		}
-		for _, q := range quotas {
-			got, e := read(q)
+			base, e := read(-1)
 			if e != "" {
 				res.Infra = e
-				break
+				w.Teardown()
+				return
 			}
-			for k, v := range base {
-				res.PublicCases++
-				if got[k] != v {
-					res.Viols = append(res.Viols, Violation{Prop: "C14", Sig: "index-changes-result|public|any",
-						Msg: fmt.Sprintf("keys %q: %q gives %s with SegmentKeysIndexMaxBytes=%d but %s without an index", keys, k, got[k], q, v)})
-					if len(res.Viols) >= 5 {
-						w.Teardown()
-						return
+			// absolute check of the no-index open against the model
+			for _, p := range probes {
+				want := "nil"
+				if i := sort.SearchStrings(keys, p); i < len(keys) && keys[i] == p {
+					want = fmtVal([]byte("v" + p))
+					if isMerge[p] {
+						want = fmtVal([]byte(mergeFold(nil, "v"+p)))
+					}
+				}
+				if base["get:"+p] != want {
+					res.Viols = append(res.Viols, Violation{Prop: "C14", Sig: "lookup-wrong-without-index|public|any", Msg: fmt.Sprintf("keys %q, no index: Get(%q)=%s want %s", keys, p, base["get:"+p], want)})
+				}
+			}
+			for _, q := range quotas {
+				got, e := read(q)
+				if e != "" {
+					res.Infra = e
+					break
+				}
+				for k, v := range base {
+					res.PublicCases++
+					if got[k] != v {
+						res.Viols = append(res.Viols, Violation{Prop: "C14", Sig: "index-changes-result|public|any",
+							Msg: fmt.Sprintf("keys %q: %q gives %s with SegmentKeysIndexMaxBytes=%d but %s without an index", keys, k, got[k], q, v)})
+						if len(res.Viols) >= 5 {
+							w.Teardown()
+							return
+						}
 					}
 				}
 			}
+			if form == "merges" {
+				res.MergeForms++
+			}
+			if res.Sample == "" {
+				res.Sample = fmt.Sprintf("key set %q: quotas 1..60 x minKeyBytes {0,%d,%d} x %d probes in-package; public path reopened with SegmentKeysIndexMaxBytes in %v, %d lookups/ranges each", keys, total, total+1, len(probes), quotas, len(base))
+			}
+			w.Teardown()
 		}
-		if res.Sample == "" {
-			res.Sample = fmt.Sprintf("key set %q: quotas 1..60 x minKeyBytes {0,%d,%d} x %d probes in-package; public path reopened with SegmentKeysIndexMaxBytes in %v, %d lookups/ranges each", keys, total, total+1, len(probes), quotas, len(base))
-		}
-		w.Teardown()
 	}
 	return
 }
@@ -261,6 +282,7 @@ func checkC14(prop, tier string) int {
 		tot.Indexed += cr.Indexed
 		tot.Truncated += cr.Truncated
 		tot.Opens += cr.Opens
+		tot.MergeForms += cr.MergeForms
 		for h, c := range cr.Hops {
 			tot.Hops[h] += c
 		}
@@ -285,13 +307,14 @@ func checkC14(prop, tier string) int {
 			"traces_validated_against_impl": tot.InPkgCases + tot.PublicCases,
 			"evaluations":                   tot.InPkgCases + tot.PublicCases,
 			"distinct_nontrivial":           tot.Indexed,
-			"rule":                          "all non-empty subsets of a 10-key universe x index quota 1..60 x minKeyBytes {0,total,total+1} x every probe: the real findKeyPos/findStartKeyInclusivePos on a segment indexed exactly as on load, against a sorted-slice model; plus the public path (persist, reopen with each SegmentKeysIndexMaxBytes, compare every Get and range with the no-index open). states/distinct_nontrivial = (key set, quota, minKeyBytes) combinations for which an index was actually built",
+			"rule":                          "all non-empty subsets of a 10-key universe x index quota 1..60 x minKeyBytes {0,total,total+1} x every probe: the real findKeyPos/findStartKeyInclusivePos on a segment indexed exactly as on load, against a sorted-slice model; plus the public path (persist, reopen with each SegmentKeysIndexMaxBytes, compare every Get and range with the no-index open; for part of the key sets also with merge operands on every second key, which a plain persistence round writes unresolved). states/distinct_nontrivial = (key set, quota, minKeyBytes) combinations for which an index was actually built",
 			"samples":                       samples,
 			"exhaustive":                    infra == 0,
 			"key_sets":                      tot.Sets,
 			"in_package_cases":              tot.InPkgCases,
 			"public_path_cases":             tot.PublicCases,
 			"store_opens":                   tot.Opens,
+			"persisted_with_merge_operands": tot.MergeForms,
 			"indexes_truncated_by_quota":    tot.Truncated,
 			"hops_seen":                     tot.Hops,
 			"infrastructure_errors":         infra,
